@@ -38,6 +38,7 @@ type Obl struct {
 	Props  []string
 	Hyp    string
 	Goal   string
+	SkGoal string
 	NDefs  int
 	Where  string
 	Text   string
@@ -345,8 +346,7 @@ func (g *Gen) havocAll(except func(string) bool) {
 		}
 		g.havocSV(n, names[n])
 	}
-	g.cur["$wild"] = g.newConst("$wild", "Bool")
-	g.svSort["$wild"] = "Bool"
+	g.havocSV("$wild", "Bool")
 }
 
 // ---- heap names --------------------------------------------------------------------------
@@ -730,7 +730,7 @@ func (g *Gen) oblige(kind, label, goal, where, text string, props []string) {
 	if len(props) == 0 && g.con != nil {
 		props = g.con.Props
 	}
-	g.obls = append(g.obls, &Obl{Name: name, Kind: kind, Label: label, Props: props, Hyp: g.curReach, Goal: goal, NDefs: len(g.defs), Where: where, Text: text, Fn: g.name})
+	g.obls = append(g.obls, &Obl{Name: name, Kind: kind, Label: label, Props: props, Hyp: g.curReach, Goal: goal, SkGoal: g.skolemizeGoal(goal), NDefs: len(g.defs), Where: where, Text: text, Fn: g.name})
 	g.assume(goal)
 }
 
